@@ -238,7 +238,8 @@ class Tifa(TifaCore, ast.NodeVisitor):
                 # TODO: Handle starred node's type changes
                 # if not is_subtype(target_type, old_type):
                     # self._issue(type_changes(self.locate(), 'an element of NODE', old_type.singular_name, elt_type.singular_name))
-                self.assign_target(starred[0], target_type)
+                # The starred name is bound to a list of whatever is left over
+                self.assign_target(starred[0].value, ListType(False))
                 for elt, elt_type, old_type in zip(trailing, tt, ot):
                     # BUG: Any trailing elements will be incorrectly offset, so won't work with finite length stuff
                     self.assign_target(elt, elt_type)
